@@ -171,6 +171,7 @@ pub fn run(rng: &mut Rng, n: usize, out: &mut Out, which: &str) {
                 out.nontrivial(&op);
                 if case <= 3 { out.sample(format!("{} => {}", op, a)); }
                 out.count(&format!("value_depth_{}", d));
+                if deeper > 0 { out.count("value_cases_not_judged_deeper_record_reused"); }
                 if score.abs() >= 32767 { out.count("value_is_forced_mate"); }
                 if g.mg.generate_moves(&b).is_empty() { out.count("value_root_terminal"); }
                 out.run(&mut st, &format!("s.qval {}", board_text(&b)));
